@@ -77,6 +77,8 @@ type wgen struct {
 	idx    uint64
 	mix    string
 	vipsOn bool
+	// secretSeq numbers the secret ids generated so far
+	secretSeq int
 }
 
 func (g *wgen) pick(xs []string) string { return xs[g.rng.Intn(len(xs))] }
@@ -928,6 +930,66 @@ func (g *wgen) ca() wcmd {
 
 // ---------------------------------------------------------------- peering
 
+// freshSecret: a secret id as the leader generates it (a UUID nobody uses yet); now and then one
+// that is already recorded, to exercise the uniqueness refusal.
+func (g *wgen) freshSecret() string {
+	if g.chance(12) {
+		return g.pick(uni.secretIDs)
+	}
+	g.secretSeq++
+	return fmt.Sprintf("5ec7e701-0000-0000-0000-%012d", g.secretSeq)
+}
+
+// secretsStep: the next request of the peering-secrets lifecycle for peering [id], as the
+// leader emits it.  Accepting side: GenerateToken (establishment) -> ExchangeSecret (establishment
+// for a pending stream secret) -> PromotePending (pending becomes active), and again for every
+// re-establishment (then establishment / pending coexist with the previous active secret).
+// Dialing side: Establish (active).  A quarter of the requests are out of step.
+func (g *wgen) secretsStep(id string, dials bool) (string, *pbpeering.SecretsWriteRequest) {
+	req := &pbpeering.SecretsWriteRequest{PeerID: id}
+	sec, _ := g.st().PeeringSecretsRead(nil, id)
+	est, pend := sec.GetEstablishment().GetSecretID(), sec.GetStream().GetPendingSecretID()
+	step := g.rng.Intn(4)
+	if g.rng.Intn(4) > 0 {
+		switch {
+		case dials:
+			step = 3
+		case pend != "":
+			step = 2
+			if est != "" && g.chance(3) {
+				step = 1 // a second exchange overwrites the unused pending secret
+			}
+		case est != "":
+			step = 1
+		default:
+			step = 0
+		}
+	}
+	switch step {
+	case 0:
+		req.Request = &pbpeering.SecretsWriteRequest_GenerateToken{GenerateToken: &pbpeering.SecretsWriteRequest_GenerateTokenRequest{EstablishmentSecret: g.freshSecret()}}
+		return "generate", req
+	case 1:
+		e := est
+		if e == "" || g.chance(8) {
+			e = g.pick(uni.secretIDs)
+		}
+		req.Request = &pbpeering.SecretsWriteRequest_ExchangeSecret{ExchangeSecret: &pbpeering.SecretsWriteRequest_ExchangeSecretRequest{
+			EstablishmentSecret: e, PendingStreamSecret: g.freshSecret()}}
+		return "exchange", req
+	case 2:
+		pd := pend
+		if pd == "" || g.chance(8) {
+			pd = g.pick(uni.secretIDs)
+		}
+		req.Request = &pbpeering.SecretsWriteRequest_PromotePending{PromotePending: &pbpeering.SecretsWriteRequest_PromotePendingRequest{ActiveStreamSecret: pd}}
+		return "promote", req
+	default:
+		req.Request = &pbpeering.SecretsWriteRequest_Establish{Establish: &pbpeering.SecretsWriteRequest_EstablishRequest{ActiveStreamSecret: g.freshSecret()}}
+		return "establish", req
+	}
+}
+
 func (g *wgen) peering() wcmd {
 	i := g.rng.Intn(len(uni.peers))
 	name, id := uni.peers[i], uni.peerIDs[i]
@@ -939,6 +1001,9 @@ func (g *wgen) peering() wcmd {
 	pk := g.rng.Intn(9)
 	if cur != nil && cur.State != pbpeering.PeeringState_DELETING && g.chance(3) {
 		pk = 5
+	}
+	if cur != nil && cur.State != pbpeering.PeeringState_DELETING && g.mix == "peering" && g.rng.Intn(3) > 0 {
+		pk = 7 // walk the secrets lifecycle
 	}
 	switch pk {
 	case 0, 1, 2:
@@ -966,12 +1031,16 @@ func (g *wgen) peering() wcmd {
 			p.DeletedAt = now
 		}
 		req := &pbpeering.PeeringWriteRequest{Peering: p}
-		if g.chance(2) {
-			req.SecretsRequest = &pbpeering.SecretsWriteRequest{PeerID: id, Request: &pbpeering.SecretsWriteRequest_GenerateToken{
-				GenerateToken: &pbpeering.SecretsWriteRequest_GenerateTokenRequest{EstablishmentSecret: g.pick(uni.secretIDs)}}}
+		// the leader attaches a secrets request when it generates a token (accepting side) or
+		// establishes (dialing side); never to the write that marks a peering for deletion
+		// (kept as a rare out-of-protocol write: it is what leaves an orphan secrets row behind)
+		if g.chance(2) && (p.State != pbpeering.PeeringState_DELETING || g.chance(6)) {
 			if p.PeerID != "" {
-				req.SecretsRequest.Request = &pbpeering.SecretsWriteRequest_Establish{
-					Establish: &pbpeering.SecretsWriteRequest_EstablishRequest{ActiveStreamSecret: g.pick(uni.secretIDs)}}
+				req.SecretsRequest = &pbpeering.SecretsWriteRequest{PeerID: id, Request: &pbpeering.SecretsWriteRequest_Establish{
+					Establish: &pbpeering.SecretsWriteRequest_EstablishRequest{ActiveStreamSecret: g.freshSecret()}}}
+			} else {
+				req.SecretsRequest = &pbpeering.SecretsWriteRequest{PeerID: id, Request: &pbpeering.SecretsWriteRequest_GenerateToken{
+					GenerateToken: &pbpeering.SecretsWriteRequest_GenerateTokenRequest{EstablishmentSecret: g.freshSecret()}}}
 			}
 		}
 		return g.mk("peering:write", fmt.Sprintf("peering write %s id=..%s state=%s secrets=%v", name, id[len(id)-1:], p.State, req.SecretsRequest != nil),
@@ -990,32 +1059,7 @@ func (g *wgen) peering() wcmd {
 		return g.mk("peering:trust-bundle-delete", "peering trust-bundle delete "+name,
 			mustEncodeProto(structs.PeeringTrustBundleDeleteType, &pbpeering.PeeringTrustBundleDeleteRequest{Name: name}))
 	default:
-		req := &pbpeering.SecretsWriteRequest{PeerID: id}
-		kind := ""
-		sec, _ := g.st().PeeringSecretsRead(nil, id)
-		switch g.rng.Intn(4) {
-		case 0:
-			kind = "generate"
-			req.Request = &pbpeering.SecretsWriteRequest_GenerateToken{GenerateToken: &pbpeering.SecretsWriteRequest_GenerateTokenRequest{EstablishmentSecret: g.pick(uni.secretIDs)}}
-		case 1:
-			kind = "exchange"
-			est := g.pick(uni.secretIDs)
-			if sec != nil && sec.GetEstablishment() != nil && g.rng.Intn(4) > 0 {
-				est = sec.GetEstablishment().GetSecretID()
-			}
-			req.Request = &pbpeering.SecretsWriteRequest_ExchangeSecret{ExchangeSecret: &pbpeering.SecretsWriteRequest_ExchangeSecretRequest{
-				EstablishmentSecret: est, PendingStreamSecret: g.pick(uni.secretIDs)}}
-		case 2:
-			kind = "promote"
-			pend := g.pick(uni.secretIDs)
-			if sec != nil && sec.GetStream() != nil && sec.GetStream().GetPendingSecretID() != "" && g.rng.Intn(4) > 0 {
-				pend = sec.GetStream().GetPendingSecretID()
-			}
-			req.Request = &pbpeering.SecretsWriteRequest_PromotePending{PromotePending: &pbpeering.SecretsWriteRequest_PromotePendingRequest{ActiveStreamSecret: pend}}
-		default:
-			kind = "establish"
-			req.Request = &pbpeering.SecretsWriteRequest_Establish{Establish: &pbpeering.SecretsWriteRequest_EstablishRequest{ActiveStreamSecret: g.pick(uni.secretIDs)}}
-		}
+		kind, req := g.secretsStep(id, cur != nil && cur.ShouldDial())
 		return g.mk("peering:secrets:"+kind, fmt.Sprintf("peering secrets %s id=..%s", kind, id[len(id)-1:]),
 			mustEncodeProto(structs.PeeringSecretsWriteType, req))
 	}
@@ -1148,6 +1192,7 @@ func (g *wgen) next() wcmd {
 		"kv":      {10, 3, 30, 8, 5, 5, 14, 1, 1, 1, 1, 3, 1, 1, 1, 6},
 		"mesh":    {22, 5, 3, 2, 1, 2, 4, 1, 1, 1, 1, 24, 9, 5, 5, 16},
 		"admin":   {8, 2, 4, 3, 2, 3, 3, 8, 7, 10, 7, 6, 4, 10, 12, 10},
+		"peering": {10, 2, 3, 1, 1, 1, 2, 1, 1, 1, 1, 5, 2, 2, 60, 6},
 	}[g.mix]
 	tot := 0
 	for _, w := range weights {
@@ -1237,5 +1282,70 @@ func corpusWide() []wcmd {
 		mk(6, "peering:trust-bundle-write", "peering trust-bundle write peer2", mustEncodeProto(structs.PeeringTrustBundleWriteType, tb(uni.peers[1]))),
 		mk(8, "peering:trust-bundle-write", "peering trust-bundle write peer1", mustEncodeProto(structs.PeeringTrustBundleWriteType, tb(uni.peers[0]))),
 		mk(9, "kvs:set", "kvs set key=\"a\"", mustEncode(structs.KVSRequestType, &structs.KVSRequest{Datacenter: "dc1", Op: api.KVSet, DirEnt: structs.DirEntry{Key: "a", Value: []byte{1}}})),
+	}
+}
+
+// corpusWideGateway: a terminating gateway that links "*" and, explicitly, api with its own
+// CAFile/SNI; then an instance of api registers. The registration path used to overwrite the
+// explicit row with a copy of the wildcard row (repaired by a882280), which a restore undid.
+func corpusWideGateway() []wcmd {
+	mk := func(idx uint64, kind, desc string, data []byte) wcmd {
+		return wcmd{Idx: idx, Kind: kind, Desc: desc, Data: hex.EncodeToString(data)}
+	}
+	tg := &structs.TerminatingGatewayConfigEntry{Kind: structs.TerminatingGateway, Name: "tgw",
+		Services: []structs.LinkedService{{Name: "*"}, {Name: "api", CAFile: "/ca.pem", SNI: "api.example"}}}
+	if err := tg.Normalize(); err != nil {
+		panic(err)
+	}
+	if err := tg.Validate(); err != nil {
+		panic(err)
+	}
+	reg := &structs.RegisterRequest{Datacenter: "dc1", Node: "n1", Address: "10.0.0.1",
+		Service: &structs.NodeService{ID: "api1", Service: "api", Port: 8000}}
+	return []wcmd{
+		mk(3, "config:terminating-gateway:upsert", "config-entry upsert terminating-gateway/tgw (\"*\" and api with CAFile/SNI)",
+			mustEncode(structs.ConfigEntryRequestType, &structs.ConfigEntryRequest{Op: structs.ConfigEntryUpsert, Datacenter: "dc1", Entry: tg})),
+		mk(5, "register", "register node=n1 svc=api1/api", mustEncode(structs.RegisterRequestType, reg)),
+		mk(7, "kvs:set", "kvs set key=\"a\"", mustEncode(structs.KVSRequestType, &structs.KVSRequest{Datacenter: "dc1", Op: api.KVSet, DirEnt: structs.DirEntry{Key: "a", Value: []byte{1}}})),
+	}
+}
+
+// corpusWideSecrets: the whole secrets lifecycle of an ACCEPTING peering, twice: generate /
+// exchange / promote, then a re-establishment (generate, exchange: pending AND active present),
+// then promote again (which frees the old active secret's UUID), then the peering is deleted.
+// Every combination of {establishment, pending, active} occurs at some cut, and PromotePending
+// runs in the suffix of the cut where pending and active coexist.
+func corpusWideSecrets() []wcmd {
+	mk := func(idx uint64, kind, desc string, data []byte) wcmd {
+		return wcmd{Idx: idx, Kind: kind, Desc: desc, Data: hex.EncodeToString(data)}
+	}
+	id, name := uni.peerIDs[0], uni.peers[0]
+	sec := func(n int) string { return fmt.Sprintf("5ec7e702-0000-0000-0000-%012d", n) }
+	sw := func(r *pbpeering.SecretsWriteRequest) []byte { return mustEncodeProto(structs.PeeringSecretsWriteType, r) }
+	gen := func(e string) *pbpeering.SecretsWriteRequest {
+		return &pbpeering.SecretsWriteRequest{PeerID: id, Request: &pbpeering.SecretsWriteRequest_GenerateToken{
+			GenerateToken: &pbpeering.SecretsWriteRequest_GenerateTokenRequest{EstablishmentSecret: e}}}
+	}
+	exch := func(e, p string) *pbpeering.SecretsWriteRequest {
+		return &pbpeering.SecretsWriteRequest{PeerID: id, Request: &pbpeering.SecretsWriteRequest_ExchangeSecret{
+			ExchangeSecret: &pbpeering.SecretsWriteRequest_ExchangeSecretRequest{EstablishmentSecret: e, PendingStreamSecret: p}}}
+	}
+	prom := func(p string) *pbpeering.SecretsWriteRequest {
+		return &pbpeering.SecretsWriteRequest{PeerID: id, Request: &pbpeering.SecretsWriteRequest_PromotePending{
+			PromotePending: &pbpeering.SecretsWriteRequest_PromotePendingRequest{ActiveStreamSecret: p}}}
+	}
+	pw := &pbpeering.PeeringWriteRequest{Peering: &pbpeering.Peering{ID: id, Name: name, State: pbpeering.PeeringState_PENDING}, SecretsRequest: gen(sec(1))}
+	del := &pbpeering.PeeringWriteRequest{Peering: &pbpeering.Peering{ID: id, Name: name, State: pbpeering.PeeringState_DELETING,
+		DeletedAt: timestamppb.New(baseTime.Add(time.Hour))}}
+	return []wcmd{
+		mk(2, "peering:write", "peering write peer1 (accepting) with GenerateToken E1", mustEncodeProto(structs.PeeringWriteType, pw)),
+		mk(4, "peering:secrets:exchange", "secrets exchange E1 -> pending P1", sw(exch(sec(1), sec(2)))),
+		mk(6, "peering:secrets:promote", "secrets promote P1 -> active", sw(prom(sec(2)))),
+		mk(8, "peering:secrets:generate", "secrets generate E2 (re-establishment)", sw(gen(sec(3)))),
+		mk(10, "peering:secrets:exchange", "secrets exchange E2 -> pending P2 (pending and active present)", sw(exch(sec(3), sec(4)))),
+		mk(12, "peering:secrets:promote", "secrets promote P2 -> active (frees P1)", sw(prom(sec(4)))),
+		mk(14, "peering:secrets:generate", "secrets generate E3", sw(gen(sec(5)))),
+		mk(16, "peering:write", "peering write peer1 state=DELETING", mustEncodeProto(structs.PeeringWriteType, del)),
+		mk(18, "peering:delete", "peering delete peer1", mustEncodeProto(structs.PeeringDeleteType, &pbpeering.PeeringDeleteRequest{Name: name})),
 	}
 }
